@@ -1,9 +1,12 @@
 package main
 
 import (
+	"encoding/json"
 	"fmt"
 	"go/token"
 	"go/types"
+	"os"
+	"path/filepath"
 	"sort"
 	"strings"
 
@@ -17,6 +20,7 @@ func init() {
 const pkgCache = "core/arbitrators/caching"
 
 func checkC19(c *Ctx, r *Report) {
+	defer checkGraphMutationSites(c, r, "C19.a")
 	defer checkContainerFields(c, r, "C19.e")
 	w := c.W
 	r.NotDecided = append(r.NotDecided, "equality of the results of successive Run() calls and of a fresh session over all projects (a property of call histories on shared mutable state)", "that cached entities are indistinguishable from freshly computed ones (cache transparency as a value property)")
@@ -377,4 +381,40 @@ func checkCacheAddErrors(c *Ctx, r *Report) {
 		[]string{"(*core/visitors.TypeDeclVisitor).visitAssignedType", "(*core/visitors.TypeDeclVisitor).VisitTypeDecl"}, 1, "VisitAlias is reached only through the type-declaration visitor")
 	ruleWhoCalls(c, r, "C19.c", nameIs("(*core/visitors.TypeDeclVisitor).VisitTypeDecl"), "(*core/visitors.TypeDeclVisitor).VisitTypeDecl",
 		[]string{"(*core/visitors.TypeDeclVisitor).EnsureDeclMaterialized"}, 1, "type declarations are visited only behind the materialisation claim")
+}
+
+// checkGraphMutationSites: the (function, graph-mutating method) pairs are the reviewed ones.
+func checkGraphMutationSites(c *Ctx, r *Report, clause string) {
+	w := c.W
+	var doc struct {
+		Pairs map[string]string `json:"pairs"`
+	}
+	if b, err := os.ReadFile(filepath.Join(c.VerifDir, "tables", "graphmutations.json")); err != nil || json.Unmarshal(b, &doc) != nil || len(doc.Pairs) < 20 {
+		r.undecided(clause, "whocalls", "graph-mutation-sites", "", "tables/graphmutations.json unreadable or too small")
+		return
+	}
+	viol := ""
+	var sites []string
+	n := 0
+	for _, cl := range w.callersOf(func(n string) bool {
+		return strings.HasPrefix(n, "(graphs/symboldg.SymbolGraphBuilder).") || strings.HasPrefix(n, "(*graphs/symboldg.SymbolGraph).")
+	}) {
+		name := calleeName(cl)
+		m := name[strings.LastIndex(name, ".")+1:]
+		if !(strings.HasPrefix(m, "Add") || strings.HasPrefix(m, "Remove") || strings.HasPrefix(m, "add")) {
+			continue
+		}
+		n++
+		sites = append(sites, w.pos(cl.Pos()))
+		for _, h := range hostParts(fnShort(cl.Parent())) {
+			if _, ok := doc.Pairs[h+" -> "+name]; !ok {
+				viol = fmt.Sprintf("%s: %s now calls %s: a new place from which the symbol graph is changed (tables/graphmutations.json). Inserting from a path that also runs when the entity is served from the cache makes a second pass add nodes and edges the first pass did not, and removal from a new place can drop what another pass still needs", w.pos(cl.Pos()), h, name)
+			}
+		}
+	}
+	if n < 20 {
+		viol = fmt.Sprintf("only %d graph-mutating call sites found (floor 20)", n)
+	}
+	o := r.add(clause, "whocalls", "graph-mutation-sites", "the symbol graph is added to and removed from at the reviewed (function, method) pairs only", []string{"tables/graphmutations.json"}, sites, viol)
+	o.NonTrivial = true
 }
